@@ -2,7 +2,7 @@
 From Coq Require Import ZArith NArith List Bool String Ascii.
 From Coq Require Extraction.
 From Coq Require Import ExtrOcamlBasic ExtrOcamlString.
-From HV Require Import Gen.GenCheatSelectors Spec.FoundrySpec Model.PrankModel Model.CheatModel.
+From HV Require Import Gen.GenCheatSelectors Gen.GenCopies Spec.FoundrySpec Model.PrankModel Model.CheatModel Model.ForkModel.
 Import ListNotations.
 Open Scope Z_scope.
 
@@ -114,6 +114,59 @@ Definition c14_state (a : list Z) : list Z :=
   | _ => []
   end.
 
+(* ---------------------------------------------------------------- state cheatcodes across branches
+   input: basefee chainid coinbase difficulty number timestamp naccounts accounts... tree
+   tree:  the item codes of c14_state (0..18) | 19 v (log the constant v)
+          | 20 <fall-through subtree> <jump subtree> | 21 (end of the path)
+   output: copied(block kind) deep(storage kind) copied(code kind) npaths (len out...)* :
+          the paths in completion order, first of the worklist run (objects with identity,
+          create_branch as regenerated), then of the value semantics *)
+Fixpoint dec_tree (fuel : nat) (l : list Z) : ftree * list Z :=
+  match fuel with
+  | O => (FEnd, [])
+  | S f =>
+    let it := fun (i : item) (r : list Z) => let '(k, r') := dec_tree f r in (FItem i k, r') in
+    match l with
+    | 0 :: who :: amt :: r => it (ICheat (Deal who amt)) r
+    | 1 :: a :: sl :: v :: r => it (ICheat (Store a sl v)) r
+    | 2 :: a :: sl :: r => it (ICheat (Load a sl)) r
+    | 3 :: who :: n :: r => let k := Z.to_nat n in it (ICheat (Etch who (firstn k r))) (skipn k r)
+    | 4 :: x :: r => it (ICheat (Warp x)) r
+    | 5 :: x :: r => it (ICheat (Roll x)) r
+    | 6 :: x :: r => it (ICheat (Fee x)) r
+    | 7 :: x :: r => it (ICheat (ChainId x)) r
+    | 8 :: x :: r => it (ICheat (Coinbase x)) r
+    | 9 :: x :: r => it (ICheat (Difficulty x)) r
+    | 10 :: a :: r => it (IBalance a) r
+    | 11 :: a :: sl :: r => it (ISload a sl) r
+    | 12 :: a :: r => it (IExtcodesize a) r
+    | 13 :: r => it ITimestamp r
+    | 14 :: r => it INumber r
+    | 15 :: r => it IBasefee r
+    | 16 :: r => it IChainid r
+    | 17 :: r => it ICoinbase r
+    | 18 :: r => it IPrevrandao r
+    | 19 :: v :: r => it (IMark v) r
+    | 20 :: r => let '(a, r1) := dec_tree f r in let '(b, r2) := dec_tree f r1 in (FFork a b, r2)
+    | 21 :: r => (FEnd, r)
+    | _ => (FEnd, [])
+    end
+  end.
+Definition enc_paths (ps : list (list Z)) : list Z :=
+  Z.of_nat (List.length ps) :: flat_map (fun o => Z.of_nat (List.length o) :: o) ps.
+Definition c14_fork (a : list Z) : list Z :=
+  match a with
+  | bf :: ci :: cb :: df :: nb :: ts :: n :: r =>
+      let k := Z.to_nat n in
+      let w := {| mw_balance := []; mw_storage := []; mw_code := map (fun x => (x, [0])) (firstn k r);
+                  mw_basefee := bf; mw_chainid := ci; mw_coinbase := cb; mw_difficulty := df;
+                  mw_number := nb; mw_timestamp := ts |} in
+      let t := fst (dec_tree (List.length r) (skipn k r)) in
+      [Z.b2z (copied block_kind); Z.b2z (deep_copied storage_kind); Z.b2z (copied code_kind)] ++
+      enc_paths (snd (run (init_heaps w) (init_exec w) t [])) ++ enc_paths (spec_run w t [])
+  | _ => []
+  end.
+
 (* ---------------------------------------------------------------- creators
    input: mode (0 svm selector, 1 vm.random selector) sel cnt a1 a2 v
    output: status (0 unknown selector, 1 ok, 2 HalmosException, 3 python crash) cnt'
@@ -181,6 +234,7 @@ Definition table : list (string * (list Z -> list Z)) :=
     ("c14_prank_spec"%string, c14_prank_spec);
     ("c14_prank_obj"%string, c14_prank_obj);
     ("c14_state"%string, c14_state);
+    ("c14_fork"%string, c14_fork);
     ("c14_creator"%string, c14_creator);
     ("c14_label"%string, c14_label) ].
 
